@@ -353,14 +353,14 @@ func (e *Exec) missingHeap(s *State, k, sort string) Term {
 // ghostDefault gives the value a ghost variable has on a path that never touched it.
 func (e *Exec) ghostDefault(k string, other Val) (Val, bool) {
 	switch {
-	case strings.HasPrefix(k, "written:"):
+	case strings.HasPrefix(k, "written:"), strings.HasPrefix(k, "called:"):
 		return Val{T: False}, true
 	case k == "heapver":
 		return other, true
 	case k == "alloc":
 		return Val{T: e.sc.Const("alloc0", SInt)}, true
 	case k == "closed":
-		return Val{T: e.sc.Const("closed0", ArraySort(SInt, SBool))}, true
+		return Val{T: e.closed0()}, true
 	case k == "trace":
 		e.declEvent()
 		return Val{T: e.sc.Const("trace0", SlcSort("Event"))}, true
@@ -571,6 +571,9 @@ func (e *Exec) branch(st *State, s *ast.BranchStmt) {
 
 func (e *Exec) ret(st *State, s *ast.ReturnStmt) {
 	f := e.top()
+	if len(e.frames) == 1 {
+		e.returnsiteChecks(st, s)
+	}
 	var vals []Val
 	if len(s.Results) == 0 {
 		for _, r := range f.results {
